@@ -211,7 +211,7 @@ def run(ctx):
     ctx.extra["replay"] = {"view_cases": s_main["cases"] + s_tip["cases"], "nonempty_views": s_main["cases_nonempty"],
                            "instances": s_main["instances"] + s_tip["instances"],
                            "differential_operations": s_main["differential"] + s_tip["differential"],
-                           "skipped_because_copy_panics": s_main["skipped_copy_panics"] + s_tip["skipped_copy_panics"],
+                           "skipped_because_copy_panics": s_main.get("skipped_copy_panics", 0) + s_tip.get("skipped_copy_panics", 0),
                            "vector_cases": s_vec["vector_cases"], "vector_instances": s_vec["vector_instances"],
                            "operations": len([k for k in s_main.get("ops", {}) if not k.startswith("copy_panics")])}
     ctx.extra["bounds"] = {"main": T["main"], "tip_family": T["tip"], "vector_family": T["vec"],
